@@ -7,14 +7,14 @@
   monotone/*                 two-run lemma (self-composition, importance bound to one ghost function for both runs):
                              bounded(movestogo <= 6) stand-in, labelled
 """
-from runner import Job, tu
+from runner import Job, NativeJob, tu
 from props.C11 import loops_unwind
 
 LEVEL = 'proof'
 EXPLANATION = ('TimeManager::calculateTime and its callee are checked against the bound of the property statement for all clock states '
                '(remaining 0..24h, increment 0..10min, movestogo 0..200, ply 0..1000); floating point is bit-precise IEEE-754 in CBMC; '
                'loops closed by loop contracts. Monotonicity is only a bounded stand-in (movestogo <= 6).')
-ASSUMPTIONS = ['libm: exp(x) is a non-negative non-NaN double for finite x; pow(b, e) lies in [0, 1] for b >= 1 and e < 0 (mathematical range; assumed contract on the library binding)',
+ASSUMPTIONS = ['(int64)(0.7 * (double)e) is replaced in calculateTime by an integer contract (|10r - 7e| <= 10, sign-preserving, 10r <= 7e for e >= 0); the contract is validated by exhaustive native enumeration of all 2^32 ints (reported as a stand-in group)', 'libm: exp(x) is a non-negative non-NaN double for finite x; pow(b, e) lies in [0, 1] for b >= 1 and e < 0 (mathematical range; assumed contract on the library binding)',
                'monotonicity in the remaining time is checked only for movestogo <= 6 (bounded stand-in, not counted as proved)',
                'rounding mode: round-to-nearest-even']
 NOT_COVERED = ['Search constructor turning the allotment into _search_time (C09/C05 territory)']
@@ -33,6 +33,28 @@ C_CALC = ('__CPROVER_requires(side <= 1 && limits->timeleft[side] >= 0 && limits
           '__CPROVER_assigns()\n'
           '__CPROVER_ensures(__CPROVER_return_value >= 0)\n'
           '__CPROVER_ensures(10 * __CPROVER_return_value <= 7 * (int64_t)limits->timeleft[side])\n')
+# (int64)(0.7 * (double)e): integer characterisation used instead of the 53-bit multiplier; validated for ALL 2^32 ints natively
+C_FTM = ('__CPROVER_requires(c == 0.7)\n__CPROVER_assigns()\n'
+         '__CPROVER_ensures(__CPROVER_return_value >= -1600000000LL && __CPROVER_return_value <= 1600000000LL && 10 * __CPROVER_return_value - 7 * (int64_t)e <= 10 && 7 * (int64_t)e - 10 * __CPROVER_return_value <= 10'
+         ' && ((e >= 0) ==> (__CPROVER_return_value >= 0 && 10 * __CPROVER_return_value <= 7 * (int64_t)e))'
+         ' && ((e <= 0) ==> (__CPROVER_return_value <= 0 && 10 * __CPROVER_return_value >= 7 * (int64_t)e)))\n')
+LEMMA_FTM = r'''
+#include <cstdio>
+#include <cstdint>
+int main() {
+  long bad = 0;
+  for (int64_t x = -2147483648LL; x <= 2147483647LL; x++) {
+    int e = (int)x; volatile double c = 0.7;
+    int64_t r = (int64_t)(c * (double)e);
+    bool ok = r >= -1600000000LL && r <= 1600000000LL && 10 * r - 7 * (int64_t)e <= 10 && 7 * (int64_t)e - 10 * r <= 10;
+    if (e >= 0) ok = ok && r >= 0 && 10 * r <= 7 * (int64_t)e;
+    if (e <= 0) ok = ok && r <= 0 && 10 * r >= 7 * (int64_t)e;
+    if (!ok) { if (bad < 5) printf("CONFIRMED (int64)(0.7 * (double)%d) = %lld violates the integer contract\n", e, (long long)r); bad++; }
+  }
+  printf("checked all 4294967296 int values, %ld outside the contract\n", bad);
+  return bad ? 1 : 0;
+}
+'''
 LC_FIX = {('TimeManager__computeTimeForFixedLength', 1): [
     '__CPROVER_assigns(i, restImportance)', '__CPROVER_loop_invariant(1 <= i && i <= movesToGo)',
     '__CPROVER_loop_invariant(restImportance >= 0.0 && restImportance <= (double)i)', '__CPROVER_decreases(movesToGo - i)']}
@@ -66,11 +88,11 @@ def jobs(tier, seed):
               '  __CPROVER_assume(s <= 1); W_side = s; W_tl = L.timeleft[s]; W_inc = L.timeinc[s]; W_mtg = L.movestogo; W_ply = p;\n'
               '  TimeManager__calculateTime(&L, s, p);' + CANARY + '}\n')
     out.append(Job('calculateTime', TUS, ['TimeManager__calculateTime'], h, 'h_calc',
-                   contracts={'TimeManager__calculateTime': C_CALC, 'TimeManager__computeTimeForFixedLength': C_FIX},
-                   nobody=['TimeManager__computeTimeForFixedLength'], enforce='TimeManager__calculateTime',
-                   replace=['TimeManager__computeTimeForFixedLength'], timeout=1800,
-                   unwindset=loops_unwind([('TimeManager__calculateTime', 201)]),
-                   route='closed-by-complete-unwinding(201): movestogo <= 200 is the precondition of the property domain; a loop contract left a symbolic x symbolic product under the overflow check and did not finish in 30 min',
-                   replay=REPLAY_CALC,
+                   contracts={'TimeManager__calculateTime': C_CALC, 'TimeManager__computeTimeForFixedLength': C_FIX, 'verif_ftrunc_mul': C_FTM},
+                   nobody=['TimeManager__computeTimeForFixedLength'], loopc=LC_CALC, enforce='TimeManager__calculateTime',
+                   replace=['TimeManager__computeTimeForFixedLength', 'verif_ftrunc_mul'], loop_contracts=True, timeout=1800, backend='cadical',
+                   route='loop contract (unbounded)', expect=['loop_invariant_step'], replay=REPLAY_CALC,
                    note='0 <= allotment and 10*allotment <= 7*remaining for every clock state; int arithmetic our_time + our_inc*(k-1) does not overflow'))
+    out.append(NativeJob('lemma/ftrunc_mul_0_7', LEMMA_FTM, 'exhaustive native enumeration of all 2^32 int arguments (complete) of the integer contract of (int64)(0.7 * (double)e)',
+                         timeout=300, note='SAT back ends do not decide the 53-bit multiplier; the integer contract used in calculateTime is validated for every int'))
     return out
